@@ -113,7 +113,9 @@ def perturbed_tree(base: Path, p: gen_project.Project, kind: str, prng: random.R
     parent = base / "p"
     if kind in ("recreate", "all"):
         prng.shuffle(order)
-        dirname = prng.choice(["other place/x y", "deeper/down/the/tree/pkg", "Z", "a-b_c.d", "répertoire/проект"])
+        # incl. names holding the characters glob / fnmatch / shells / URLs give a meaning to: the location must not matter
+        dirname = prng.choice(["other place/x y", "deeper/down/the/tree/pkg", "Z", "a-b_c.d", "répertoire/проект",
+                               "build[1]/proj", "a*b/p?q", "{x,y}/[!a]z", "~t/$HOME/%41#f", "[abc]"])
         parent = base / "q"
     parent.mkdir(parents=True, exist_ok=True)
     root = bc.materialise(p, order=order, parent=str(parent), dirname=dirname)
